@@ -198,6 +198,7 @@ class World:
         self.max_live = 0
 
     NET_ALL = False
+    STEP_CAP = 60.0
 
     # -- to implement -------------------------------------------------------------------------
     @classmethod
@@ -322,7 +323,7 @@ def execute(world_cls, rseed: int, tier: str, known: KnownFindings | None, cfg: 
                         break
                     step["seq"] = seq
                     res.trace.append(step)
-                    outcome = world.apply(step)
+                    outcome = _apply_bounded(world, step)
                     _after_step(world, res, dig, sig, actors, seq, step, outcome)
                     seq += 1
             else:
@@ -330,7 +331,7 @@ def execute(world_cls, rseed: int, tier: str, known: KnownFindings | None, cfg: 
                     if not world.can_apply(step):
                         continue
                     res.trace.append(step)
-                    outcome = world.apply(step)
+                    outcome = _apply_bounded(world, step)
                     _after_step(world, res, dig, sig, actors, step.get("seq", 0), step, outcome)
             world.finish()
         except Violation as v:
@@ -383,37 +384,88 @@ class _ReplayTimeout(BaseException):
     pass
 
 
-class _wall_limit:
-    """Bound one candidate replay of the minimiser by wall time (harness only; never inside a judged run)."""
+class _alarm:
+    """Raise `exc()` in the main thread after `seconds` of wall time; nests (an outer alarm keeps its deadline)."""
 
-    def __init__(self, seconds):
+    def __init__(self, seconds, exc):
         self.seconds = seconds
-        self.old = None
+        self.exc = exc
+        self.active = False
 
     def _handler(self, signum, frame):
-        raise _ReplayTimeout()
+        raise self.exc()
 
     def __enter__(self):
         import signal
-        if self.seconds and hasattr(signal, "setitimer"):
+        import threading
+        import time
+        if self.seconds and hasattr(signal, "setitimer") and threading.current_thread() is threading.main_thread():
             try:
-                self.old = signal.signal(signal.SIGALRM, self._handler)
-                signal.setitimer(signal.ITIMER_REAL, self.seconds)
+                self.old_handler = signal.signal(signal.SIGALRM, self._handler)
+                self.old_left = signal.setitimer(signal.ITIMER_REAL, self.seconds)[0]
+                self.t0 = time.monotonic()
+                self.active = True
             except ValueError:
-                self.old = None
+                self.active = False
         return self
 
     def __exit__(self, *exc):
         import signal
-        if self.old is not None:
+        import time
+        if self.active:
             signal.setitimer(signal.ITIMER_REAL, 0)
-            signal.signal(signal.SIGALRM, self.old)
+            signal.signal(signal.SIGALRM, self.old_handler)
+            if self.old_left:
+                signal.setitimer(signal.ITIMER_REAL, max(self.old_left - (time.monotonic() - self.t0), 0.01))
         return False
+
+
+def _wall_limit(seconds):
+    """Bound one candidate replay of the minimiser by wall time (harness only)."""
+    return _alarm(seconds, _ReplayTimeout)
+
+
+class _StepTimeout(BaseException):
+    pass
+
+
+# an operation the model accepted returns within this many seconds of wall time (bounded progress); far above what any
+# step needs (milliseconds; seconds for a clean-room replay), so only a real hang reaches it
+STEP_CAP_OVERRIDE = None
+
+
+def _step_cap(world):
+    if STEP_CAP_OVERRIDE is not None:
+        return STEP_CAP_OVERRIDE
+    try:
+        return float(os.environ.get("VERIF_STEP_CAP_S", "") or world.STEP_CAP)
+    except ValueError:
+        return world.STEP_CAP
+
+
+def _apply_bounded(world, step):
+    cap = _step_cap(world)
+    try:
+        with _alarm(cap, _StepTimeout):
+            return world.apply(step)
+    except _StepTimeout:
+        v = Violation("hang", step.get("op", "?"), "", "", f"the operation did not return within {cap:g} s of wall time")
+        v.seq = step.get("seq")
+        raise v from None
 
 
 def minimise(world_cls, cfg: dict, trace: list, target: Violation, known, budget_runs: int = 400,
              simplifiers=None, clock=None, budget_s: float = 60.0, per_test_s: float = 8.0):
     """ddmin on the step list, then per-step argument simplification.  Returns (trace, violation, runs)."""
+    global STEP_CAP_OVERRIDE
+    if target.klass == "hang" and STEP_CAP_OVERRIDE is None:
+        # candidates of a hang are judged with a short cap, or every one of them would cost the full cap
+        STEP_CAP_OVERRIDE = 3.0
+        try:
+            return minimise(world_cls, cfg, trace, target, known, budget_runs=60, simplifiers=simplifiers, clock=clock,
+                            budget_s=max(budget_s, 120.0), per_test_s=30.0)
+        finally:
+            STEP_CAP_OVERRIDE = None
     runs = 0
     t0 = clock() if clock else None
 
